@@ -1,24 +1,33 @@
 (* Glue between generated C04 case files and the model. *)
 From Coq Require Import List NArith Bool Arith String.
-From RareV Require Import Base.Hex Model.Lines Corr.Run.
+From RareV Require Import Base.Hex Model.Lines Model.LinesBuf Corr.Run.
 Import ListNotations.
 
-Definition inp := (nat * script * list byte)%type.
+(* buffered? (BufferedReadAhead instead of ImmediateReadAhead), buffer size, script, stream *)
+Definition inp := (bool * nat * script * list byte)%type.
 Definition sk (k : N) : rerr := match k with 0%N => RNil | 1%N => REof | _ => RErr end.
 
 (* c bufSize script stream | observed: tokens at return, tokens at end, nerr, reads-after-error, delivered *)
 Definition c (bs : N) (scr : list (N * N)) (str : string)
              (ret end_ : list string) (nerr rae : N) (del : string) : inp * option obs :=
-  ((N.to_nat bs, map (fun p => (N.to_nat (fst p), sk (snd p))) scr, unhex str),
+  ((false, N.to_nat bs, map (fun p => (N.to_nat (fst p), sk (snd p))) scr, unhex str),
    Some (mkobs (map unhex ret) (map unhex end_) (N.to_nat nerr) (N.to_nat rae) (unhex del))).
+(* the same for BufferedReadAhead (bs = maxBufLen) *)
+Definition cb (bs : N) (scr : list (N * N)) (str : string)
+              (ret end_ : list string) (nerr rae : N) (del : string) : inp * option obs :=
+  ((true, N.to_nat bs, map (fun p => (N.to_nat (fst p), sk (snd p))) scr, unhex str),
+   Some (mkobs (map unhex ret) (map unhex end_) (N.to_nat nerr) (N.to_nat rae) (unhex del))).
+Definition cbN (bs : N) (scr : list (N * N)) (str : string) : inp * option obs :=
+  ((true, N.to_nat bs, map (fun p => (N.to_nat (fst p), sk (snd p))) scr, unhex str), None).
 
 (* the implementation did not complete (panic or runaway loop) *)
 Definition cN (bs : N) (scr : list (N * N)) (str : string) : inp * option obs :=
-  ((N.to_nat bs, map (fun p => (N.to_nat (fst p), sk (snd p))) scr, unhex str), None).
+  ((false, N.to_nat bs, map (fun p => (N.to_nat (fst p), sk (snd p))) scr, unhex str), None).
 
-Definition model (i : inp) : option obs := let '(bs, scr, str) := i in run bs scr str.
+Definition model (i : inp) : option obs :=
+  let '(buffered, bs, scr, str) := i in if buffered then brun bs scr str else run bs scr str.
 Definition oeqb (a b : option obs) : bool :=
   match a, b with Some a, Some b => obs_eqb a b | None, None => true | _, _ => false end.
 Definition check (i : inp) (o : option obs) : bool :=
-  let '(bs, scr, _) := i in match o with Some o => C04_check bs scr o | None => false end.
+  let '(_, bs, scr, _) := i in match o with Some o => C04_check bs scr o | None => false end.
 Definition mm := mismatches model oeqb check.
